@@ -149,7 +149,9 @@ def run(ctx, driver):
     quick = ctx.tier == "quick"
     ctx.rule = ("random histories of 1-4 analysis() calls (plain, with options blocks, with a simplify_expression argument, with other flags, failing on malformed "
                 "input, failing on an unknown option after a valid one, without dynamics, stiffness-checked through the PyGSL stand-in with a stimuli block) followed by a probe call, all in one fresh interpreter, vs the probe alone in "
-                "fresh interpreters under 2 PYTHONHASHSEED values; distinct = distinct histories; non-trivial = history contains a call that writes an option or fails")
+                "fresh interpreters under 2 PYTHONHASHSEED values; distinct = distinct histories; non-trivial = history contains a call that writes an option or fails; "
+                "for stiffness-checked calls (options block absent / partial / full) the stand-in records how far the test simulated and the largest step it requested: "
+                "every unspecified option must show its documented default")
     rng = ctx.rng("hist")
     cases = [c["case"] for c in ctx.corpus() if "case" in c and "calls" in c["case"]]
     for i in range(ctx.n(40, 400)):
